@@ -96,18 +96,21 @@
 	   (raw)[0])))
 #endif
 
-/* raw0 = raw[index >> 8], linear interpolated. */
+/* raw0 = raw[index >> 16], linear interpolated. The bit position i
+   is a 16.16 fixed point number: with less precision the rounding
+   error of bs->step, accumulated over all FRC and payload bits,
+   can exceed half a bit. */
 #define SAMPLE(_kind)							\
 do {									\
 	const uint8_t *r;						\
 									\
-	r = raw + (i >> 8) * bpp;					\
+	r = raw + (i >> 16) * bpp;					\
 	raw0 = GREEN (r);						\
 	raw1 = GREEN (r + bpp);						\
-	raw0 = (int)(raw1 - raw0) * (i & 255) + (raw0 << 8);		\
+	raw0 = (int)(raw1 - raw0) * ((i >> 8) & 255) + (raw0 << 8);	\
 	if (collect_points) {						\
 		points->kind = _kind;					\
-		points->index = (raw - raw_start) * 256 + i;		\
+		points->index = (raw - raw_start) * 256 + (i >> 8);	\
 		points->level = raw0;					\
 		points->thresh = tr;					\
 		++points;						\
@@ -116,7 +119,7 @@ do {									\
 
 #define PAYLOAD()							\
 do {									\
-	i = bs->phase_shift; /* current bit position << 8 */		\
+	i = bs->phase_shift; /* current bit position << 16 */		\
 	tr *= 256;							\
 	c = 0;								\
 									\
@@ -384,7 +387,7 @@ low_pass_bit_slicer_Y8		(vbi3_bit_slicer *	bs,
 
 #define LP_SAMPLE(_kind)						\
 do {									\
-	unsigned int ii = (i >> 8) * bps;				\
+	unsigned int ii = (i >> 16) * bps;				\
 									\
 	raw0 = raw[ii];							\
 	for (m = bps; m < (bps << LP_AVG); m += bps)			\
@@ -401,7 +404,7 @@ do {									\
 	}								\
 } while (0)
 
-	i = bs->phase_shift; /* current bit position << 8 */
+	i = bs->phase_shift; /* current bit position << 16 */
 	c = 0;
 
 	for (j = bs->frc_bits; j > 0; --j) {
@@ -1050,8 +1053,8 @@ vbi3_bit_slicer_set_params	(vbi3_bit_slicer *	bs,
 	bs->frc = frc & f_mask;
 	bs->frc_bits = frc_bits;
 
-	/* Payload bit distance in 1/256 raw samples. */
-	bs->step = (sampling_rate * (int64_t) 256) / payload_rate;
+	/* Payload bit distance in 1/65536 raw samples. */
+	bs->step = (sampling_rate * (int64_t) 65536) / payload_rate;
 
 	if (payload_bits & 7) {
 		/* Use bit routines. */
@@ -1071,8 +1074,8 @@ vbi3_bit_slicer_set_params	(vbi3_bit_slicer *	bs,
 
 	case VBI3_MODULATION_NRZ_LSB:
 		bs->phase_shift	= (int)
-			(sampling_rate * 256.0 / cri_rate * .5
-			 + bs->step * .5 + 128);
+			(sampling_rate * 65536.0 / cri_rate * .5
+			 + bs->step * .5 + 32768);
 		break;
 
 	case VBI3_MODULATION_BIPHASE_MSB:
@@ -1084,8 +1087,8 @@ vbi3_bit_slicer_set_params	(vbi3_bit_slicer *	bs,
 		/* Phase shift between the NRZ modulated CRI and the
 		   biphase modulated rest. */
 		bs->phase_shift	= (int)
-			(sampling_rate * 256.0 / cri_rate * .5
-			 + bs->step * .25 + 128);
+			(sampling_rate * 65536.0 / cri_rate * .5
+			 + bs->step * .25 + 32768);
 		break;
 	}
 
@@ -1096,7 +1099,7 @@ vbi3_bit_slicer_set_params	(vbi3_bit_slicer *	bs,
 	   averages (which also starts one sample later). Do not search
 	   for the CRI where this would exceed samples_per_line. */
 	reach = (unsigned int)((bs->phase_shift
-				+ bs->step * (uint64_t)(data_bits - 1)) >> 8);
+				+ bs->step * (uint64_t)(data_bits - 1)) >> 16);
 	if (low_pass_bit_slicer_Y8 == bs->func)
 		reach += 1 << LP_AVG;
 	else
